@@ -140,6 +140,25 @@ func c08Property(t *rapid.T) {
 			_ = m
 			_ = mode
 		}
+		// signature storm: a block as a follower gets it (no transaction is local) in which many signatures do not verify;
+		// the verification goroutines of one block all report at about the same time
+		if rapid.IntRange(0, 5).Draw(t, "sigStorm") == 0 {
+			n := rapid.IntRange(20, 300).Draw(t, "stormSize")
+			flip := rapid.IntRange(0, 64).Draw(t, "stormFlip")
+			every := rapid.IntRange(1, 3).Draw(t, "stormEvery")
+			for i := 0; i < n; i++ {
+				from := sim.KeyFor(fmt.Sprintf("storm-%d", i%7))
+				tx := sim.TransferTx(from, w.Nonces.Next(from), w.TS+1, sim.KeyFor("sink").Addr, "1")
+				desc := "storm: transfer of an unfunded account (remote)"
+				if i%every == 0 {
+					tx.Signature[(flip+i)%len(tx.Signature)] ^= 0x40
+					tx.TransactionHash = tx.Hash()
+					desc = "storm: transfer with a flipped signature byte (remote)"
+				}
+				b.txs = append(b.txs, &txSpec{tx: tx, kind: "badsig", desc: desc, victim: true})
+			}
+			g.kinds["signature-storm"]++
+		}
 		for _, s := range b.txs {
 			ops = append(ops, fmt.Sprintf("  block+%d: %s", bi+1, s.desc))
 		}
